@@ -383,3 +383,68 @@ func natHexEncodeToString(fr *frame, fn *ssa.Function, args []value) value {
 }
 
 func init() { natives["encoding/hex.EncodeToString"] = natHexEncodeToString }
+
+// ---- shared-state watch --------------------------------------------------------
+
+// WatchGlobals(pkgSuffix string): from now on every write to a package-level
+// variable (or to an element/field of one) of packages whose path ends in
+// pkgSuffix is recorded. WatchedWrites() string lists them.
+func natWatchGlobals(fr *frame, fn *ssa.Function, args []value) value {
+	i := fr.i
+	suffix := args[0].(string)
+	if i.path.watched == nil {
+		i.path.watched = map[*value]string{}
+	}
+	for _, pkg := range i.prog.AllPackages() {
+		if pkg.Pkg == nil || !strings.HasSuffix(pkg.Pkg.Path(), suffix) {
+			continue
+		}
+		for _, m := range pkg.Members {
+			g, ok := m.(*ssa.Global)
+			if !ok || g.Name() == "init$guard" {
+				continue
+			}
+			cell := i.global(g)
+			i.watchCells(cell, g.Name(), 0)
+		}
+	}
+	return nil
+}
+
+func (i *interpreter) watchCells(cell *value, name string, depth int) {
+	if depth > 4 {
+		return
+	}
+	i.path.watched[cell] = name
+	switch v := (*cell).(type) {
+	case array:
+		if len(v) <= 4096 {
+			for k := range v {
+				i.watchCells(&v[k], name, depth+1)
+			}
+		}
+	case structure:
+		for k := range v {
+			i.watchCells(&v[k], name, depth+1)
+		}
+	}
+}
+
+func (i *interpreter) noteWrite(addr *value, fr *frame) {
+	if name, ok := i.path.watched[addr]; ok && !i.inInit() {
+		fnName := "?"
+		if fr != nil && fr.fn != nil {
+			fnName = fr.fn.String()
+		}
+		i.path.writes = append(i.path.writes, name+" in "+fnName)
+	}
+}
+
+func natWatchedWrites(fr *frame, fn *ssa.Function, args []value) value {
+	return strings.Join(fr.i.path.writes, "; ")
+}
+
+func init() {
+	natives[vapiPath+".WatchGlobals"] = natWatchGlobals
+	natives[vapiPath+".WatchedWrites"] = natWatchedWrites
+}
